@@ -348,6 +348,79 @@ func frameLive(r *prng.R, s *out.Sink, tier string) {
 	}
 	frameDeadPeerQueue(r, s, ca, pool, srvCert)
 	frameFirstSendRace(r, s, tier, ca, pool, srvCert)
+	frameBurstOrder(r, s, tier, ca, pool, srvCert)
+}
+
+// frameBurstOrder: one goroutine sends a burst to one destination that is larger than the destination's outgoing queue
+// (1000 messages), so that the queue is full while the writer is still connecting. Send then has to wait for room — and
+// the frames still go out, and arrive, in the order of the Send calls.
+func frameBurstOrder(r *prng.R, s *out.Sink, tier string, ca tlsgen.CA, pool *x509.CertPool, srvCert *tlsgen.CertKeyPair) {
+	bursts := 3
+	if tier == "thorough" {
+		bursts = 20
+	}
+	const count = 2500
+	lg := &liveLogger{}
+	ident, err := ca.NewClientCertKeyPair()
+	if err != nil {
+		panic(err)
+	}
+	p2id := map[string]uint16{hex.EncodeToString(sha2(ident.Cert)): 7}
+	for b := 0; b < bursts; b++ {
+		l, _ := net.Listen("tcp", "127.0.0.1:0")
+		addr := l.Addr().String()
+		l.Close()
+		lsn := tssnet.Listen(addr, srvCert.Cert, srvCert.Key)
+		in, stop := tssnet.ServiceConnections(lsn, p2id, lg)
+		var mu sync.Mutex
+		var got []uint32
+		go func() {
+			for m := range in {
+				if len(m.Data) >= 4 {
+					mu.Lock()
+					got = append(got, binary.LittleEndian.Uint32(m.Data))
+					mu.Unlock()
+				}
+			}
+		}()
+		send := tssnet.SocketRemoteParties{0: tssnet.NewSocketRemoteParty(tssnet.PartyConnectionConfig{AuthFunc: authFuncFor(ident), Id: 0, Endpoint: addr, TlsCAs: pool}, lg)}
+		for k := 0; k < count; k++ {
+			payload := make([]byte, 4+r.Intn(40))
+			binary.LittleEndian.PutUint32(payload, uint32(k))
+			send.Send(0, nil, payload, 0)
+		}
+		deadline := time.Now().Add(10 * time.Second)
+		for time.Now().Before(deadline) {
+			mu.Lock()
+			n := len(got)
+			mu.Unlock()
+			if n >= count {
+				break
+			}
+			time.Sleep(time.Millisecond)
+		}
+		stop()
+		mu.Lock()
+		arrived := append([]uint32(nil), got...)
+		mu.Unlock()
+		s.N++
+		s.Count("burst-order/burst")
+		problem := ""
+		for i, v := range arrived {
+			if v != uint32(i) {
+				problem = fmt.Sprintf("the frame received at position %d is number %d of the burst: sending order not preserved (lost, duplicated or reordered)", i, v)
+				break
+			}
+		}
+		if problem == "" && len(arrived) != count {
+			problem = fmt.Sprintf("%d of the %d frames of the burst arrived within 10 s", len(arrived), count)
+		}
+		if problem != "" {
+			s.Violate("C17", "burst to one destination larger than its outgoing queue: "+problem, fmt.Sprintf("one goroutine, %d frames of 4..43 bytes to a fresh destination, burst %d", count, b))
+			return
+		}
+	}
+	s.Distinct[fmt.Sprintf("burst-order %d bursts", bursts)] = struct{}{}
 }
 
 // frameFirstSendRace: several goroutines make the very first send to a destination that has never been used, at the same
